@@ -42,3 +42,7 @@ Definition go_jacobi (x y : Z) : Outcome Z :=
 (* NonEmptyMultiBytes(bzs, n) *)
 Definition non_empty_multi (bzs : list (list Z)) (n : nat) : bool :=
   negb (Nat.eqb (length bzs) 0) && Nat.eqb (length bzs) n && forallb (fun b => negb (Nat.eqb (length b) 0)) bzs.
+
+(* NonEmptyMultiBytes(bzs) without the optional count *)
+Definition non_empty_multi_any (bzs : list (list Z)) : bool :=
+  negb (Nat.eqb (length bzs) 0) && forallb (fun b => negb (Nat.eqb (length b) 0)) bzs.
